@@ -448,3 +448,33 @@ CONTRACTS[CI + 'CliffordGate.forward#map_local'] = dict(
     ensures=[_gate_local(e) for e in _tm['ensures'][3:6]] + ['same_loc(result, obj)'],
     modifies=['obj.gs', 'obj.ps'], returns='=obj',
 )
+
+# ------------------------------------------------------------------ C02 / C12: constructors built from maps
+# clifford_rotation_map(G): the table of the rotation by G -- row i is the image of the unit string e_i (X_0, Z_0, X_1, ...), i.e.
+# i * e_i * G with the exact phase when e_i anticommutes with G, e_i itself otherwise.
+_unit = 'b2i(i == c)'
+CONTRACTS[ST + 'clifford_rotation_map'] = dict(
+    params=[('gen', dict(PAULI, exact=False))],
+    requires=['len(gen.g) % 2 == 0', 'bits1(gen.g)'],
+    ensures=['rows(result.gs) == len(gen.g)', 'cols(result.gs) == len(gen.g)', 'len(result.ps) == len(gen.g)',
+             'forall(i, 0, len(gen.g), implies(gen.g[i + 1 if i % 2 == 0 else i - 1] != 0, '
+             'forall(c, 0, len(gen.g), result.gs[i][c] == (b2i(i == c) + gen.g[c]) % 2) and '
+             'result.ps[i] == (gen.p + 1 + IpowSum(Unit(i, len(gen.g)), gen.g, len(gen.g) // 2)) % 4))',
+             'forall(i, 0, len(gen.g), implies(gen.g[i + 1 if i % 2 == 0 else i - 1] == 0, '
+             'forall(c, 0, len(gen.g), result.gs[i][c] == b2i(i == c)) and result.ps[i] == 0))',
+             'fresh_loc(result.gs)', 'fresh_loc(result.ps)'],
+    modifies=[], returns=CMAP,
+    hints={'return': [
+        ('forall_lemma', [('i', '0', 'len(gen.g)')], 'acq_unit', ['gen.g', 'i', 'len(gen.g)', 'len(gen.g) // 2']),
+        ('forall_lemma', [('i', '0', 'len(gen.g)')], 'acqsum_ext', ["at('call:clifford_rotate#0.pre', gs)[i]", 'Unit(i, len(gen.g))', 'gen.g', 'len(gen.g) // 2']),
+        ('forall_lemma', [('i', '0', 'len(gen.g)')], 'ipowsum_ext', ["at('call:clifford_rotate#0.pre', gs)[i]", 'Unit(i, len(gen.g))', 'gen.g', 'len(gen.g) // 2']),
+    ]},
+)
+_zs = ['rows(result.gs) == 2 * N', 'cols(result.gs) == 2 * N', 'len(result.ps) == 2 * N',
+       # stabilizers Z_i in rows 0..N-1, destabilizers X_i in rows N..2N-1, all signs +
+       'forall(i, 0, N, forall(c, 0, 2 * N, result.gs[i][c] == b2i(c == 2 * i + 1) and result.gs[N + i][c] == b2i(c == 2 * i)))',
+       'forall(i, 0, 2 * N, result.ps[i] == 0)']
+CONTRACTS[ST + 'zero_state'] = dict(
+    params=[('N', 'int')], requires=['N >= 0'], ensures=_zs + ['result.r == 0'], modifies=[], returns=STATE)
+CONTRACTS[ST + 'maximally_mixed_state'] = dict(
+    params=[('N', 'int')], requires=['N >= 0'], ensures=_zs + ['result.r == N'], modifies=[], returns=STATE)
